@@ -52,6 +52,11 @@ const (
 	base   = int64(1_000_000_000_000) // abstract instant (ns) of a timer case's start
 	ms     = int64(time.Millisecond)
 	margin = 60 * ms // distance kept between every scripted op and every expiry instant
+	// liveness oracle: an arming is only judged "never called back" when nothing could have superseded, cancelled or
+	// re-targeted it for this long after its expiry instant (or ever, for the last arming of a case: then the harness
+	// waits up to lastArmingWait for the callback before it gives up)
+	livenessClearance = 400 * time.Millisecond
+	lastArmingWait    = 3 * time.Second
 	// a run is "disturbed" (and re-run) when the harness itself measured more scheduling latency than this
 	latencyTolerance = 30 * time.Millisecond
 )
@@ -200,12 +205,14 @@ type armRec struct {
 	start  time.Time // just before TimeoutForRound
 	lb     time.Time // start + real RoundTimeout(h, round) computed at `start`: lower bound of the deadline
 	cancel bool      // context already cancelled when armed
+	opIdx  int       // index of the arm op in the case
 }
 type tRun struct {
 	obs       []string // one per line of tc.lines()
 	fires     []fire
 	arms      []armRec
 	regs      []regRec // handler registrations: New(…, done) first, then every OnTimeout call
+	opStart   []time.Time // real start instant of every op of the case
 	cancelAt  time.Time
 	slotZero  time.Time
 	disturbed bool
@@ -285,9 +292,10 @@ func runTimerCase(tc *tCase) *tRun {
 	res.obs = append(res.obs, "ok")
 	seen := 0
 	cancelled := false
-	for _, op := range tc.ops {
+	for opIdx, op := range tc.ops {
 		due := t0.Add(time.Duration(op.at))
 		sleepUntil(due)
+		res.opStart = append(res.opStart, time.Now())
 		if l := time.Since(due); l > res.latency {
 			res.latency = l
 			if debugLatency {
@@ -303,7 +311,7 @@ func runTimerCase(tc *tCase) *tRun {
 		case "arm":
 			st := time.Now()
 			d := tm.RoundTimeout(specqbft.Height(op.h), specqbft.Round(op.r))
-			res.arms = append(res.arms, armRec{round: op.r, h: op.h, start: st, lb: st.Add(d), cancel: cancelled})
+			res.arms = append(res.arms, armRec{round: op.r, h: op.h, start: st, lb: st.Add(d), cancel: cancelled, opIdx: opIdx})
 			tm.TimeoutForRound(specqbft.Height(op.h), specqbft.Round(op.r))
 		case "register":
 			res.regs = append(res.regs, regRec{op.k, time.Now()})
@@ -316,6 +324,19 @@ func runTimerCase(tc *tCase) *tRun {
 	}
 	close(stop)
 	wg.Wait()
+	// the last arming can no longer be superseded: if it is owed a callback, wait generously for it
+	if n := len(res.arms); n > 0 && owedCallback(tc, res, n-1) {
+		waitUntil := time.Now().Add(lastArmingWait)
+		for time.Now().Before(waitUntil) {
+			mu.Lock()
+			res.fires = append(res.fires[:0], fires...)
+			mu.Unlock()
+			if calledBack(res, n-1) {
+				break
+			}
+			time.Sleep(10 * time.Millisecond)
+		}
+	}
 	mu.Lock()
 	res.fires = append([]fire(nil), fires...)
 	mu.Unlock()
@@ -350,10 +371,57 @@ func runTimerCase(tc *tCase) *tRun {
 	return res
 }
 
+// owedCallback: arming i was made on a live context with a non-nil handler in force, and no later op of the case
+// (arm = supersede, cancel, register = other handler) begins within livenessClearance after its expiry instant.
+func owedCallback(tc *tCase, r *tRun, i int) bool {
+	a := r.arms[i]
+	if a.cancel {
+		return false
+	}
+	handler := int64(-1)
+	for _, g := range r.regs {
+		if !g.start.After(a.start) {
+			handler = g.k
+		}
+	}
+	if handler < 0 {
+		return false
+	}
+	expiry := a.lb
+	if expiry.Before(a.start) {
+		expiry = a.start
+	}
+	for j := a.opIdx + 1; j < len(tc.ops) && j < len(r.opStart); j++ {
+		if tc.ops[j].kind != "end" && r.opStart[j].Before(expiry.Add(livenessClearance)) {
+			return false
+		}
+	}
+	return true
+}
+
+func calledBack(r *tRun, i int) bool {
+	a := r.arms[i]
+	for _, f := range r.fires {
+		if f.round == a.round && !f.ts.Before(a.start) {
+			return true
+		}
+	}
+	return false
+}
+
 // oracle evaluates the property on one execution of a case inside the property's quantifier.
 func oracle(run *hx.Run, tc *tCase, r *tRun) {
 	if tc.probe != "" {
 		return
+	}
+	for i, a := range r.arms {
+		if owedCallback(tc, r, i) && !calledBack(r, i) {
+			late := ""
+			if a.lb.Before(a.start) {
+				late = fmt.Sprintf(" (its deadline had passed %v before it was armed)", a.start.Sub(a.lb).Round(time.Millisecond))
+			}
+			run.Violate("C17/arming-never-called-back", fmt.Sprintf("round %d was armed%s, was neither superseded nor cancelled, and its callback never ran", a.round, late), tc.lines()...)
+		}
 	}
 	count := map[uint64]int{}
 	for _, f := range r.fires {
@@ -429,6 +497,10 @@ func genTimerCase(r *hx.Rng, forceProbe string) *tCase {
 	tc.c.thr = uint64(1 + r.Intn(3))
 	h0 := uint64(r.Intn(40))
 	slotOff := ms * int64(-150+r.Intn(250))
+	lateStart := forceProbe == "" && r.Chance(25) // late duty start: the deadlines of the first 0..several rounds have already passed
+	if lateStart {
+		slotOff = -ms * int64(250+r.Intn(1100))
+	}
 	tc.gen = base + slotOff - int64(h0)*tc.c.slot
 	tc.probe = forceProbe
 
@@ -508,6 +580,10 @@ func genTimerCase(r *hx.Rng, forceProbe string) *tCase {
 					t = prevFire
 				}
 				t += margin + ms*int64(r.Intn(60))
+				if lateStart && r.Chance(50) { // leave the previous arming alone long enough for the liveness oracle to judge it
+					t += ms * int64(400+r.Intn(100))
+					style = "arm-long-after-expiry"
+				}
 			default:
 				style = "random-gap"
 				t += ms * int64(5+r.Intn(250))
@@ -574,6 +650,9 @@ func genTimerCase(r *hx.Rng, forceProbe string) *tCase {
 		}
 	}
 	tc.ops = append(tc.ops, tOp{kind: "end", at: end + margin + 20*ms})
+	if lateStart {
+		tc.styles = append(tc.styles, "late-duty-start")
+	}
 	return tc
 }
 
